@@ -242,7 +242,7 @@ pub fn simple(src: &mut Src, cfg: &Cfg, qvars: &[String], pvars: &[String]) -> I
         26 | 27 => Instruction::Delay(Delay {
             duration: expr(src, cfg, pvars),
             frame_names: (0..src.below(3)).map(|_| frame_name(src)).collect(),
-            qubits: qubits(src, cfg, qvars, 1, 2),
+            qubits: qubits(src, cfg, qvars, 0, 2),
         }),
         28 => Instruction::Fence(Fence { qubits: qubits(src, cfg, qvars, 0, 3) }),
         29 => Instruction::Label(Label { target: target(src, cfg) }),
